@@ -145,6 +145,14 @@ def probe(path, ops, fields, tcount):
 
 
 def run(ctx):
+    model = core.Model()
+    try:
+        run_(ctx, model)
+    finally:
+        model.close()
+
+
+def run_(ctx, model):
     rng = gen.rng_for(ctx.seed, 'c18')
     cases = [('numpy', None), ('segy', 'heuristic'), ('segy', 'thorough'), ('segy', 'exhaustive'), ('segy', 'strip'),
              ('segy-const', 'thorough'), ('2d', 'heuristic')]
@@ -202,6 +210,18 @@ def run(ctx):
             ctx.stats['open_' + got['open'][0]] += 1
             if got['open'][0] != 'ok':
                 continue
+            # K: the model's verdict (Lean `truncRaises`, theorem read_call_on_truncated_file) for every sample read on a
+            # file of this length vs what the real call did: raises iff one of its range reads reaches beyond the cut
+            for op in ops:
+                req = readcheck.model_request(fi, op)
+                if req is None or op not in got:
+                    continue
+                ctx.stats['corr_requests'] += 1
+                verdict = model.ask(f'io trunc {spec.DISK * 2} {len(content)} ' + req[len('read '):])
+                real = 'raise' if got[op][0] != 'ok' else 'value'
+                if verdict != real:
+                    ctx.corr_fail('Model.IO/truncRaises', f'io trunc {spec.DISK * 2} {len(content)} {req}', verdict, real,
+                                  {'case': desc, 'state': label, 'call': op})
             for k, v in got.items():
                 if v[0] == 'ok' and v != truth.get(k):
                     ctx.fail(f'partial file ({label}): {k} returned a value that differs from the complete file\'s',
